@@ -17,7 +17,13 @@ THEOREMS = {"Artap.Props.C18": [
     "C18_leaders_bounded", "C18_leaders_mutually_nondominated", "C18_leaders_pareto", "C18_leaders_eps",
     "C18_leaders_eps_float"]}
 AXIOMS_OK = FLOAT_AXIOMS
-# second tie to the code (tools/py2coq.py + coq/theories/GenProofs): the source of Operator.clip is translated on every run and proved equal to Model/Variation.v clip
+# second tie to the code (tools/py2coq.py + coq/theories/GenProofs): translated on every run and proved equal to the model:
+#   SwarmGen   (GenProofs/SwarmEquiv.v): SwarmAlgorithm.speed_constriction (whole function) and, in body mode, the loop body of
+#              SwarmAlgorithm.update_particle_best (= Model/Swarm.v pbest_step), of OMOPSO / SMPSO / PSOGA.update_position (= Model/Variation.v
+#              position_update, one particle) and of the inner `for i` loop of SwarmAlgorithm / PSOGA.update_velocity (one coordinate:
+#              speed_constriction (raw_velocity ...)); the loop headers and the code around the loops are pinned textually only
+#   ArchiveGen (GenProofs/ArchiveEquiv.v): Archive.add, Archive.truncate (getter fixed to 'crowding_distance') = Model/Archive.v
+#   ClipGen    (GenProofs/ClipEquiv.v): Operator.clip = Model/Variation.v clip; algorithm_swarm.py does not call clip and no C18 theorem uses it
 from harness.core import translated_specs
 TRANSLATED = translated_specs("ClipGen", "SwarmGen", "ArchiveGen")
 TRUSTED = [
